@@ -677,6 +677,64 @@ def _mod_affine(t, is_state):
     return sym.affine(effects.rebuild(t, f))
 
 
+def check_normalization_forwarded(ctx, F):
+    """Every `_fast` constructor that takes an optional normalization hands exactly that argument to the shared quantiser: the
+    five representations built by the same-named constructor from the same arguments are then the same model.  A member that
+    quantises with its own idea of the normalization (the computed sum, say) builds a different table whenever the caller's
+    value is not that sum."""
+    ff = anchors.validators(F).get('float_fast')
+    key0 = 'R4/normalization-forwarded'
+    role = 'a `_fast` constructor passes its normalization argument on to the shared quantiser unchanged'
+    if ff is None:
+        return ctx.unresolved('R4', role, 'stream::model::categorical', 'the fast quantiser was not found', key=key0)
+    n = 0
+    for b in F.bodies:
+        if b.promoted is not None or '::tests::' in b.defpath or b.defpath.startswith(('pybindings', '<pybindings')) or b.dk not in ('Fn', 'AssocFn'):
+            continue
+        if not any((facts.callee(t) or {}).get('def') == ff.defpath for _, t in b.calls()):
+            continue
+        opt_args = [i for i in range(1, b.arg_count + 1) if F.ty_s(b.local_ty(i)).startswith('core::option::Option<')]
+        if len(opt_args) != 1:
+            continue
+        k = opt_args[0]
+        try:
+            _, paths = rules.evaluate(b)
+        except sym.TooManyPaths:
+            ctx.unresolved('R4', role, b.defpath, 'too many paths', key=key0 + '/' + b.defpath)
+            continue
+        ctx.touch(b)
+        n += 1
+        bad = None
+        unres = None
+        seen = 0
+        for r in paths or []:
+            for e in r.events:
+                if e['kind'] == 'call' and e['callee'] == ff.defpath and len(e['args']) >= 2:
+                    seen += 1
+                    a = effects.strip_uid(e.get('args_val', e['args'])[1])
+                    is_k = lambda x: x == ('arg', k) or (isinstance(x, tuple) and x and x[0] == 'in' and x[1][0] == k)
+                    if a == ('arg', k) or (a[0] == 'in' and a[1] == (k,)):
+                        continue
+                    if sym.contains(a, is_k):
+                        unres = 'hands `%s`, a value derived from its normalization argument, to the shared quantiser' % sym.show(a)[:80]
+                        continue
+                    # `None` passed on the arm of a match that decided the argument is None
+                    if a[0] == 'agg' and isinstance(a[1], tuple) and a[1][0] == 'adt' and a[1][2] == 'None' and any(
+                            t[0] == 'discr' and is_k(t[1]) and sym.discr_variant(t, v) == 'None' for t, v, _ in r.preds):
+                        continue
+                    if True:
+                        bad = bad or ('hands `%s` to the shared quantiser instead of its own normalization argument: built from the same arguments, this representation differs from its siblings whenever the caller\'s normalization is not the value used here' % sym.show(a)[:80])
+        if bad:
+            ctx.bad('R4', role, b.defpath, bad, key=key0 + '/' + b.defpath, loc=rules.loc(b))
+        elif unres:
+            ctx.unresolved('R4', role, b.defpath, unres, key=key0 + '/' + b.defpath)
+        elif seen:
+            ctx.ok('R4', role, b.defpath, 'argument %d is passed on as it is' % k, key=key0 + '/' + b.defpath)
+        else:
+            ctx.unresolved('R4', role, b.defpath, 'the call of the quantiser lies on no enumerated path', key=key0 + '/' + b.defpath)
+    ctx.floor('R4', 'floor: `_fast` constructors with a normalization argument', 'stream::model::categorical', n, 4, 'only %d found (5 on the reference tree)' % n, key=key0 + '/floor')
+
+
 def check_legacy_constructors_agree(ctx, F):
     """The deprecated float constructors (`from_floating_point_probabilities`, `from_symbols_and_floating_point_probabilities`) of
     the five categorical model types are one family: each forwards to the sibling strategy of its own type, and all to the *same*
@@ -1088,6 +1146,7 @@ def run(ctx):
     check_size_hint_steps(ctx, F)
     check_nth_agrees_with_size_hint(ctx, F)
     check_legacy_constructors_agree(ctx, F)
+    check_normalization_forwarded(ctx, F)
     check_conservative_preskip(ctx, F)
     check_uniform_table_extent(ctx, F)
     check_symbol_successor(ctx, F)
